@@ -20,6 +20,9 @@ type Rec struct {
 	// FailedSeq is the index in Events of the call that was failed (-1 if none yet)
 	FailedSeq int
 	Sentinel  error
+	// EndAlsoFails: once a callback was made to fail, every EndEdit that follows fails too, each with an error of its own
+	EndAlsoFails bool
+	EndErrors    []error
 }
 
 type Event struct {
@@ -220,6 +223,11 @@ func (n *recNode) EndEdit(r node.NodeRequest) error {
 		return n.r.Sentinel
 	}
 	err := n.inner.EndEdit(r)
+	if err == nil && n.r.EndAlsoFails && n.r.FailedSeq >= 0 && n.r.Active {
+		err = fmt.Errorf("verif: EndEdit %d of %s %s fails as well", len(n.r.EndErrors), n.side, n.id)
+		n.r.EndErrors = append(n.r.EndErrors, err)
+		n.r.Events[i].Injected = true
+	}
 	n.end(i, resOf(nil, err))
 	return err
 }
